@@ -414,7 +414,16 @@ def run(ch: Checker) -> None:
         ch.ok('C16.6b', am, 'xor', 'payload[i] ^ mask[i % 4] over every index')
     elif shape is None:
         blk = _blockwise_shape(am, m, ce)
-        if blk is True:
+        if blk is None:
+            big = _bigint_shape(am, prog)
+            if big is True:
+                ch.ok('C16.6b', am, 'xor', 'whole-payload integer XOR, turned back into exactly len(payload) bytes')
+                blk = 'done'
+            elif big is not None:
+                blk = big
+        if blk == 'done':
+            pass
+        elif blk is True:
             ch.ok('C16.6b', am, 'xor', 'block-wise XOR with a block size that is a multiple of the key length')
         elif blk is None:
             ch.skip('C16.6b', am, 'xor', 'apply_mask has neither the per-byte form payload[i] ^ key[i % 4] nor a recognised block-wise form; key alignment not decided')
@@ -676,6 +685,42 @@ def _apply_mask_shape(fn: FuncInfo) -> Any:
                     else:
                         return 'key byte selected by %s instead of <payload index> %% 4' % norm(idx)
     return None
+
+
+def _bigint_shape(fn: FuncInfo, prog: Any) -> Any:
+    """the whole-payload form: int.from_bytes(data, O) ^ int.from_bytes(<key repeated to len(data)>, O), turned back into bytes with
+    .to_bytes(N, O).  True when N is len(data) and the three byte orders agree; a string for a recognised-but-wrong shape (a length
+    computed from the VALUE drops leading zero bytes); None when this is not the form used."""
+    params = fn.params
+    if len(params) < 2:
+        return None
+    data = params[-2]
+    found = None
+    for p in fpaths(cfg_of(fn, prog, exc_edges=False)):
+        if p.exit_kind != 'return' or not p.stmts():
+            continue
+        i, last = p.stmts()[-1]
+        if not (isinstance(last, ast.Return) and last.value is not None):
+            continue
+        sym = Sym(p)
+        rv = sym.value(last.value, i)
+        if not (isinstance(rv, ast.Call) and isinstance(rv.func, ast.Attribute) and rv.func.attr == 'to_bytes'):
+            continue
+        x = rv.func.value
+        if not (isinstance(x, ast.BinOp) and isinstance(x.op, ast.BitXor) and all(isinstance(o, ast.Call) and attr_chain(o.func) == 'int.from_bytes' for o in (x.left, x.right))):
+            continue
+        n_arg = rv.args[0] if rv.args else next((k.value for k in rv.keywords if k.arg == 'length'), None)
+        orders = [norm(c.args[1]) if len(c.args) > 1 else norm(next((k.value for k in c.keywords if k.arg == 'byteorder'), ast.Constant(value='big'))) for c in (x.left, x.right, rv)]
+        if n_arg is None or norm(n_arg).replace(' ', '') != 'len(%s)' % data:
+            return ('apply_mask turns the XORed integer back into bytes with to_bytes(%s): a length derived from the value, not from the payload, drops every leading zero byte of the result -- a payload '
+                    'whose first byte equals the first key byte is built shorter than the announced length (and a decoded payload that starts with NUL comes out short)' % (norm(n_arg)[:60] if n_arg is not None else ''))
+        if len(set(orders)) != 1:
+            return 'apply_mask converts with different byte orders (%s): the key is applied to the wrong positions' % orders
+        operands = [norm(sym.value(o.args[0], i)) if o.args else '' for o in (x.left, x.right)]
+        if not any(op_ == data for op_ in operands):
+            return 'apply_mask does not XOR the payload itself (%s)' % operands
+        found = True
+    return found
 
 
 def _blockwise_shape(fn: FuncInfo, m: Any, ce: ConstEval) -> Any:
